@@ -15,7 +15,7 @@ P = "C09"
 
 CLIENT_M = ("bind", "bind_simple", "bind_sasl", "search_request", "extended_request")
 _TAG = {"bind": 0, "bind_simple": 0, "bind_sasl": 0, "search_request": 3, "extended_request": 23, "unbind": 2}
-ID_CLASSES = ("search", "nonsearch", "completed", "next", "zero", "large")
+ID_CLASSES = ("search", "nonsearch", "completed", "next", "zero", "large", "alias")
 
 
 def cid_class(model, mid):
@@ -29,6 +29,8 @@ def cid_class(model, mid):
         return "completed"
     if mid == model.last_id + 1:
         return "next"
+    if any((mid - o) % 256 == 0 for o in model.out):
+        return "alias"
     return "large"
 
 
@@ -42,21 +44,35 @@ class C09(PropBase):
             "(response kind, id class, outcome) cells + request-call outcomes visited")
     ASSUMPTIONS = ["ids need to be positive and strictly increasing, not consecutive",
                    "acceptance of a response depends on its id alone (any response kind completes a non-search operation)"]
-    RUNS = {"quick": 24000, "thorough": 300000}
+    RUNS = {"quick": 16000, "thorough": 240000}
     STEPS = {"quick": 70, "thorough": 140}
     REQUIRED_CELLS = tuple("%s/%s" % (k, c) for k in policy.RESPONSE_KINDS for c in ID_CLASSES)
     REQUIRED_REACH = ("dup_final", "response_after_done", "entry_for_nonsearch", "request_to_client", "id_after_refused_call",
-                      "refused_search_while_binding_then_response", "notice_or_unbind_to_client", "two_in_progress")
+                      "refused_search_while_binding_then_response", "notice_or_unbind_to_client", "two_in_progress",
+                      "closed_then_request_probes", "long_session_preroll")
 
     def init_op(self, rng):
         return {"op": "init", "sessions": [{"name": "c", "role": "c"}], "observe_pending": True,
                 "illegal_p": rng.choice([0.1, 0.3, 0.5]), "bad_p": rng.choice([0.05, 0.12, 0.3]),
-                "chunk": rng.choice(["whole", "whole", "mixed", "byte"]), "big": rng.choice([0.03, 0.12]), "style": policy.wire_style(rng)}
+                "chunk": rng.choice(["whole", "whole", "mixed", "byte"]), "big": rng.choice([0.03, 0.12]), "style": policy.wire_style(rng),
+                "preroll": rng.choice([0] * 23 + [130, 258])}
 
     def make(self, init):
         st = St(World(init))
         st.x = {"cells": set(), "bad_delivered": False, "max_out": 0, "ids": [], "refused_since_id": False,
                 "refused_search_bi": False, "done_ids": set()}
+        # a long-lived session: N request/response pairs before the seeded history starts (ids then need 2+ octets
+        # around 128 and 256), executed through the same step() so that every oracle applies
+        for i in range(init.get("preroll", 0)):
+            self.step(st, {"op": "call", "who": "c", "m": "extended_request", "a": {"name": "1.1"}})
+            mid = st.x["ids"][-1] if st.x["ids"] else 1
+            self.step(st, {"op": "drain", "who": "c", "n": None})
+            if i % 7 != 3:  # leave some operations in progress
+                self.step(st, {"op": "inject", "to": "c", "msg": {"t": "ExtendedResponse", "id": mid, "controls": [], "name": None, "value": None,
+                                                                   "result": {"code": 0, "matched_dn": "", "diag": ""}}})
+                self.step(st, {"op": "deliver", "to": "c", "n": None})
+        if init.get("preroll", 0):
+            st.hit("long_session_preroll")
         return st
 
     def next_op(self, st, rng):
@@ -87,9 +103,9 @@ class C09(PropBase):
                 return {"op": "inject", "to": "c", "msg": policy.byz_response(g, mid, "ExtendedResponse", notice=True)}
             if bad or not model.out:
                 kinds = policy.RESPONSE_KINDS
-                k = (self.idx + w.events) % (len(kinds) * 4)
+                k = (self.idx + w.events) % (len(kinds) * 5)
                 kind = kinds[k % len(kinds)]
-                cls = ("completed", "next", "zero", "large")[k // len(kinds)]
+                cls = ("completed", "next", "zero", "large", "alias")[k // len(kinds)]
                 mid = policy.client_id_class_pick(rng, model, cls)
                 if mid is None:
                     mid = policy.client_id_class_pick(rng, model, "next")
@@ -197,7 +213,7 @@ class C09(PropBase):
                         if lt["id"] in st.x["done_ids"]:
                             st.hit("response_after_done")
                         st.hit("dup_final")
-                    elif cls in ("next", "zero", "large"):
+                    elif cls in ("next", "zero", "large", "alias"):
                         st.x["bad_delivered"] = True
                     elif cls == "nonsearch" and kind in ("SearchResultEntry", "SearchResultReference"):
                         st.hit("entry_for_nonsearch")
@@ -239,6 +255,17 @@ class C09(PropBase):
                 raise Violation(P, "returned-differs", "receive returned %s for delivered %s" % (got, want))
         if not ev["ok"] and ev["st_after"] != "CLOSED":
             raise Violation(P, "refusal-not-closing", "ProtocolError raised but state is %s" % ev["st_after"])
+        if not ev["ok"]:
+            # "closes the session": on a copy, no request call may hand out an id any more
+            st.hit("closed_then_request_probes")
+            for m, args in (("bind_simple", ()), ("bind_sasl", ("EXTERNAL",)), ("search_request", ()), ("extended_request", ("1.2.3",))):
+                cp = w.clone("c")
+                try:
+                    r = getattr(cp, m)(*args)
+                except Exception:  # noqa: BLE001
+                    continue
+                raise Violation(P, "refusal-not-closing/%s" % m, "after the ProtocolError (%s) a copy of the client still accepts %s() -> id %r, "
+                                "state %s" % (ev["exc"]["msg"], m, r, cp.state))
         self.diverge_unless(ev, "delivery")
 
     def nontrivial(self, st):
